@@ -39,13 +39,15 @@ PROPS["C19"] = dict(
     level_note="Proof is about Model/Format.v. Conversions String(a), String(Number(a)), JSON.stringify(a) are oracles evaluated by goja in the "
                "same runtime. Tie: Gen/UtilFormat.v (directive switch, console table) + differential run + spec oracle applied to the implementation's outputs.",
     rule="80% util.format calls over strings assembled from a '%'-rich piece alphabet (every position incl. last, multi-byte and astral "
-         "characters) x 0-3 arguments from 26 JS values; 20% console histories of 1-6 calls with a recording Printer; non-trivial = at least one "
+         "characters) x 0-3 arguments from 55 JS values (8-12% of the calls pass one of them as first argument instead of a string); 20% console histories of 1-6 calls with a recording Printer; non-trivial = at least one "
          "'%' and one argument (format) or >= 2 calls (console); distinct by hash of the canonical case",
     codes={"Diff1": "model js_format differs from util.format", "Diff2": "model console sinks differ from the recording printer",
            "SpecFail1": "util.format result differs from the specification (literal kept / positional / %% / surplus)",
            "SpecFail2": "console messages differ from format of the call's arguments or went to the wrong sink",
            "SpecFail3": "number of delivered messages differs from the number of console calls",
-           "Implformat-threw": "util.format threw", "Implconsole-threw": "console call threw"},
+           "Implformat-threw": "util.format threw", "Implconsole-threw": "console call threw",
+           "Implconsole-message-is-not-format-of-arguments": "a console call delivered something other than util.format of the same arguments (computed by a separate "
+                                                             "call in the same runtime), or to another sink, or out of order"},
     trusted=["goja: String(), ToNumber(), JSON.stringify, conversion of JS strings to Go runes (well-formed strings only)"],
     assumptions=["Symbols, BigInts, custom inspection, lone surrogates are outside the claim"],
 )
@@ -295,12 +297,14 @@ _LOOP_CODES = {
     "Implfree-refused-after-restart": "free run: a restarted loop refused work",
     "Implfree-scenario-did-not-finish": "free run: a scenario did not finish within 40 s (an API call never returned)",
     "Implfree-uncleared-timeout-never-ran": "free run: a short timeout set on a loop that was started and never stopped did not run",
+    "Implfree-timer-fired-early": "free run: a timeout or interval whose delay is an hour or more (up to 1e300 ms and Infinity) ran within the seconds the scenario lasts, "
+                                  "or the callback of a set call that threw ran",
 }
 _FREE = {
     "C03": ["Implfree-callbacks-overlap", "Implfree-callback-while-stopped", "Implfree-api-call-panicked"],
     "C04": ["Implfree-accepted-not-run-once", "Implfree-fifo-broken", "Implfree-refused-ran", "Implfree-accepted-function-never-ran",
             "Implfree-accepted-not-run-by-terminate"],
-    "C05": ["Implfree-timeout-ran-twice", "Implfree-ran-after-clear", "Implfree-uncleared-timeout-never-ran"],
+    "C05": ["Implfree-timeout-ran-twice", "Implfree-ran-after-clear", "Implfree-uncleared-timeout-never-ran", "Implfree-timer-fired-early"],
     "C06": ["Implfree-stop-count-wrong", "Implfree-run-did-not-return-at-quiescence", "Implfree-run-did-not-return",
             "Implfree-run-returned-before-quiescence"],
     "C07": ["Implfree-stop-did-not-return", "Implfree-run-did-not-return-after-stop", "Implfree-accepted-not-run-once", "Implfree-timeout-ran-twice",
